@@ -93,6 +93,11 @@ static struct {
 
 static CO_CSDO *CS;
 static uint32_t TXID, RXID;
+/* -DC19_CLIENT=1 (with -DCO_CSDO_N=2): the transfers run on the second client (1281h, server node 6); client 0 is an idle bystander */
+#ifndef C19_CLIENT
+#define C19_CLIENT 0
+#endif
+static uint32_t *pCobTx, *pCobRx; static uint8_t *pSrvNode;
 static int FAILED;
 static long n_closed;
 static int noleak;                       /* --opt noleak=1 (triage only): no timer accounting at completion, shows what a leftover timer does later */
@@ -388,7 +393,7 @@ static void tr_prepare(int seq, const TSpec *t)
 static void tr_request(void)
 {
     CO_ERR err; React r; uint8_t e[8];
-    CO_CSDO *c = COCSdoFind(&Node, 0);
+    CO_CSDO *c = COCSdoFind(&Node, C19_CLIENT);
     if (c == 0) { FAIL("csdo-request-refused", "COCSdoFind returns NULL for the enabled client 0 before transfer %d", H.seq); return; }
     H.act0 = tmr_used_act(); H.tim0 = tmr_used_tim();
     w_obs_clear();
@@ -628,20 +633,20 @@ static void disabled_case(int variant, int dir, int size)
     React r; CO_ERR err; CO_CSDO *c; uint8_t f[8]; TSpec t = { dir, size, 5, 0 };
     snap_restore(&S0); FAILED = 0;
     CID[0] = 3; CID[1] = -1; CID[2] = variant; CID[3] = dir; CID[4] = size; cid_n = 0; mc_case_v(CID, 5);
-    if (variant & 1) CsdoCobTx |= 0x80000000u;
-    if (variant & 2) CsdoCobRx |= 0x80000000u;
+    if (variant & 1) (*pCobTx) |= 0x80000000u;
+    if (variant & 2) (*pCobRx) |= 0x80000000u;
     w_obs_clear(); nc_nmt(0x82, 0); mc_steps++;              /* reset communication: 1280h is read again */
     tr_prepare(0, &t);
     H.act0 = tmr_used_act(); H.tim0 = tmr_used_tim();
-    c = COCSdoFind(&Node, 0);
-    if (c != 0) FAIL("csdo-disabled", "COCSdoFind returns the client although 1280h:1 = %08X, 1280h:2 = %08X", CsdoCobTx, CsdoCobRx);
+    c = COCSdoFind(&Node, C19_CLIENT);
+    if (c != 0) FAIL("csdo-disabled", "COCSdoFind returns the client although 1280h:1 = %08X, 1280h:2 = %08X", (*pCobTx), (*pCobRx));
     w_obs_clear();
-    if (dir == UP) err = COCSdoRequestUpload(&Node.CSdo[0], CO_DEV(H.idx, H.sub), UB[0] + GUARD, (uint32_t)size, csdo_cb, 5);
-    else           err = COCSdoRequestDownload(&Node.CSdo[0], CO_DEV(H.idx, H.sub), UB[0] + GUARD, (uint32_t)size, csdo_cb, 5);
+    if (dir == UP) err = COCSdoRequestUpload(&Node.CSdo[C19_CLIENT], CO_DEV(H.idx, H.sub), UB[0] + GUARD, (uint32_t)size, csdo_cb, 5);
+    else           err = COCSdoRequestDownload(&Node.CSdo[C19_CLIENT], CO_DEV(H.idx, H.sub), UB[0] + GUARD, (uint32_t)size, csdo_cb, 5);
     mc_steps++;
     if (mc_verbose) { char w[64]; snprintf(w, sizeof w, "request on the disabled client -> %d", (int)err); log_obs(w); }
     observe(&r);
-    if (!FAILED && err == CO_ERR_NONE) FAIL("csdo-disabled", "%s request accepted although the client is disabled (1280h:1 = %08X, 1280h:2 = %08X)", dir == UP ? "upload" : "download", CsdoCobTx, CsdoCobRx);
+    if (!FAILED && err == CO_ERR_NONE) FAIL("csdo-disabled", "%s request accepted although the client is disabled (1280h:1 = %08X, 1280h:2 = %08X)", dir == UP ? "upload" : "download", (*pCobTx), (*pCobRx));
     if (!FAILED && (r.ncb || r.nreq || r.nabort || OBS.ntx)) FAIL("csdo-disabled", "refused request on the disabled client caused %d callback(s), %d frame(s)", r.ncb, OBS.ntx);
     for (int a = 0; a < 5 && !FAILED; a++) { foreign(a, f); do_rx(f); expect_quiet("on the disabled client", "csdo-disabled", 0); }
     for (int i = 0; i < 8 && !FAILED; i++) { do_tick(); expect_quiet("on the disabled client", "csdo-disabled", 0); }
@@ -671,12 +676,17 @@ static void all_candidates(int dir, int shard, int nshard)
 static void setup(void)
 {
     w_regions_clear();
-    nc_defaults(); NC.csdo = 1;
+    nc_defaults(); NC.csdo = C19_CLIENT ? 2 : 1;
     nc_build();
+#if C19_CLIENT
+    pCobTx = &Csdo2CobTx; pCobRx = &Csdo2CobRx; pSrvNode = &Csdo2Node;
+#else
+    pCobTx = &CsdoCobTx; pCobRx = &CsdoCobRx; pSrvNode = &CsdoNode;
+#endif
     memset(&H, 0, sizeof H); memset(UB, 0, sizeof UB); memset(UBsz, 0, sizeof UBsz);
     W_REG_NOHASH(H); W_REG_NOHASH(UB); W_REG_NOHASH(UBsz);
-    TXID = CsdoCobTx + CsdoNode; RXID = CsdoCobRx + CsdoNode;
-    CS = COCSdoFind(&Node, 0);
+    TXID = (*pCobTx) + (*pSrvNode); RXID = (*pCobRx) + (*pSrvNode);
+    CS = COCSdoFind(&Node, C19_CLIENT);
     if (CS == 0) { fprintf(stderr, "c19: SDO client 0 not available in the world\n"); exit(2); }
     H.act_init = tmr_used_act(); H.tim_init = tmr_used_tim(); H.seq = -1;
     w_obs_clear();
